@@ -14,8 +14,12 @@ func IsTruthy(val any) bool {
 			return false
 		}
 		return true
-	case int, int64, float64:
+	case int, int8, int16, int32, int64, uint, uint8, uint16, uint32, uint64, uintptr:
 		return fmt.Sprintf("%v", b) != "0"
+	case float32:
+		return b != 0
+	case float64:
+		return b != 0
 	case nil:
 		return false
 	default:
